@@ -198,6 +198,30 @@ WELL = [("uniform", 10.0, 1.0), ("few3", 1e2, 50.0), ("uniform", 4.0, 0.02)]
 ILL = [("geometric", 1e2, 1.0), ("clustered", 1e4, 1.0), ("geometric", 1e3, 5.0)]
 
 
+def override_cells(quick):
+    n = 3
+    rels = [("equal", [], [], None), ("equal", [2], [2], None), ("equal", [2, 3], [2, 3], None),
+            ("more", [], [2], None), ("more", [], [n], None), ("more", [], [2, n], None), ("more", [n], [2, n], None),
+            ("more", [2], [n, 2], None),
+            ("fewer", [2], [], None), ("fewer", [2, n], [n], None),
+            ("singleton", [2], [1], None), ("singleton", [1], [2], None), ("singleton", [2, 1], [1, n], None),
+            ("singleton", [n], [2, 1], None),
+            ("lhs-differs", [], [], [2]), ("lhs-differs", [], [n], []), ("lhs-differs", [2], [2], [1]),
+            ("lhs-differs", [], [2], [n, 1])]
+    out = []
+    k = 0
+    for op in ["identity", "diag", "constdiag"]:
+        for rel, ob, db, lb in rels:
+            for lhs in ([n, 2, None] if not quick else [[n, 2][k % 2]] + ([None] if k % 3 == 0 and lb is None else [])):
+                k += 1
+                if lhs is None and lb is not None:
+                    continue
+                out.append(dict(op=op, n=n, batch=ob, data_batch=db, lhs_batch=lb, rel=rel, t=[n, 1, 2][k % 3], fam="uniform",
+                                kappa=4.0, scale=1.0, call="sim", model=False, inverse=True, lhs=lhs, set_nq=None, set_tol=None,
+                                generic=True))
+    return out
+
+
 def ciq_specs(quick, seed):
     """list of specs for contour_integral_quad / sqrt_inv_matmul / ciq sampling; `model` says whether the values are
     compared with the Gallina model (whole MINRES runs: only well-conditioned spectra, DESIGN 2.4)"""
@@ -283,6 +307,14 @@ def ciq_specs(quick, seed):
         fam, kappa, scale = WELL[i % len(WELL)]
         add(op=op_, n=n_, batch=batch, t=1, fam=fam, kappa=kappa, scale=scale, call="sim", model=True, inverse=True,
             lhs=lhs_, set_nq=None, set_tol=[None, 1e-10][i % 2], rhs_batch="none", rhs_vec=True)
+    # class-specific overrides of sqrt_inv_matmul (Identity, Diag, ConstantDiag — found by scanning operators/*.py) against
+    # the dense values AND the generic base-class path on a Dense copy, for every relation between the batch shape of the
+    # operator and that of rhs / lhs: equal, data with MORE dims, with FEWER dims, broadcast singleton dims, rhs and lhs with
+    # different batch shapes — including the coincidence sizes (batch = n, O = n, t = n) where a reduction over the wrong
+    # axis keeps the shape
+    for cell in override_cells(quick):
+        i += 1
+        add(**cell)
     # known-finding cells
     add(op="identity", n=5, batch=[], t=2, fam="identity", kappa=1.0, scale=1.0, call="direct", model=True,
         inverse=True, set_nq=None, set_tol=None)
